@@ -393,6 +393,8 @@ func genSortRandom(maxLen int) func(core.Source) sortCase {
 	}
 }
 
+var farInts = []int{math.MinInt64, math.MinInt64 + 1, math.MaxInt64, math.MaxInt64 - 1, -1, 0, 1, math.MinInt32, math.MaxInt32, -1 << 62, 1 << 62}
+
 // the default ranker (natural order through the collator) on plain ints and strings
 type defaultSortCase struct {
 	Keys []int  `json:"keys"`
@@ -641,8 +643,15 @@ func TestC09(t *testing.T) {
 	core.Rapid(r, core.Check[defaultSortCase]{Name: "default-ranker", Gen: func(s core.Source) defaultSortCase {
 		c := defaultSortCase{Elem: core.Pick(s, []string{"int", "string"}, "elem"), Keys: []int{}}
 		n := s.Choose(40, "len")
+		// a third of the int cases hold values from both ends of the int64 range next to small ones: a
+		// ranker that subtracts instead of comparing is right for every pair less than 2^63 apart
+		far := c.Elem == "int" && s.Choose(3, "far") == 0
 		for i := 0; i < n; i++ {
-			c.Keys = append(c.Keys, int(s.Int(-5, 60, "key")))
+			if far && s.Choose(2, "extreme") == 0 {
+				c.Keys = append(c.Keys, core.Pick(s, farInts, "key"))
+			} else {
+				c.Keys = append(c.Keys, int(s.Int(-5, 60, "key")))
+			}
 		}
 		if c.Elem == "string" {
 			for i := range c.Keys {
